@@ -774,6 +774,40 @@ func genTraverse(ctx *Ctx, emit func(any, string)) {
 		}
 	}
 	rec(nil)
+	// a path is as long as the tree is deep: chains of 31..45 index-consuming
+	// levels (every third hop goes through a Condition, which consumes none),
+	// walked with every prefix of the main descent, with the leaf beside each
+	// level, and with paths that run off the end
+	for _, depth := range []int{31, 32, 33, 34, 40, 45} {
+		bottom := tvStack("OR", 0, tvLeaf(nil), tvLeaf(nil))
+		cur := bottom
+		for d := depth - 1; d >= 0; d-- {
+			var next *Node = cur
+			if d%3 == 2 {
+				next = tvCond(cur)
+			}
+			cur = tvStack(kinds[d%len(kinds)], 0, tvLeaf(nil), next)
+		}
+		k := 0
+		travLabel(cur, &k)
+		var paths [][]int
+		for l := 1; l <= depth+3; l++ {
+			main := make([]int, l)
+			for i := range main {
+				main[i] = 1
+			}
+			paths = append(paths, main)
+			leaf := append(append([]int{}, main[:l-1]...), 0)
+			paths = append(paths, leaf, append(append([]int{}, leaf...), 0))
+		}
+		for a := 0; a < len(paths); a += tvChunk {
+			b := a + tvChunk
+			if b > len(paths) {
+				b = len(paths)
+			}
+			emit(TravInput{Tree: cur, Ops: paths[a:b]}, "exhaustive")
+		}
+	}
 	// random trees
 	n := ctx.N(100, 2000)
 	for i := 0; i < n; i++ {
